@@ -59,4 +59,14 @@ theorem C13_set_other_key_dirty (l : L) (a : Addr) (k k' : String) (v w : Bytes)
         rw [KV.get_set_ne _ _ _ _ hne]
         simp
 
+/-- **existence flag**: after a write, the key exists iff the written value is non-empty — the same answer
+`present` gives for the value read back from the database after the caches are gone, so the flag cannot depend on
+where the value is served from (repaired by the `fix:` commit "a storage key with an empty value does not exist") -/
+theorem C13_exists_iff_nonempty (v : Bytes) : present v = true ↔ ∃ s, v = some s ∧ s ≠ "" := by
+  cases v with
+  | none => simp [present]
+  | some s => simp [present]
+
+theorem C13_empty_write_is_absent : present (some "") = false ∧ present none = false := by decide
+
 end Bxh.Props.C13
